@@ -54,4 +54,7 @@ def branchSendCounts : List (Nat × List Nat) := [(3, [1]), (4, [1]), (5, [1]), 
 def elseSendCounts : List Nat := [1]
 /-- the same for the helpers a branch may call instead of a responder -/
 def helperSendCounts : List (List Nat) := [[1], [1], [1], [1]]
+/-- SFTPClient._async_request: the packet is sent outside the region that holds self._lock (AST) -/
+def sendOutsideLock : Bool := true
+def sendUnderLock : Bool := !sendOutsideLock
 end PV.Generated.C30
